@@ -2,6 +2,7 @@ package rules
 
 import (
 	"fmt"
+	"go/token"
 	"go/types"
 	"strings"
 
@@ -205,6 +206,28 @@ func c11(w *core.World, r *core.Report) {
 			}
 		}
 		r.Check(ok, "KEY-ORDER", core.Site(f, "sorts key names before positional use"), w.Pos(f.Pos()), t.Why+": "+detail)
+	}
+
+	// ---- PATH-FRESH
+	r.Rule("PATH-FRESH", 1, "sharedEntryAttributes.SdcpbPathInternal builds the path of an entry for the call: the key-level children write their key value into the last element of the path they get from their parent (p.Elem[len-1].Key[name] = ...), so the elements must not be shared between calls. The returned path does not depend on an sdcpb.Path / PathElem kept in a field of the entry (a per-entry cache handed out as a shallow copy makes all instances of a list carry the keys of the one computed last).")
+	if f := w.Func("pkg/tree", "sharedEntryAttributes", "SdcpbPathInternal"); f != nil {
+		bad := ""
+		sl := core.ReturnSlice(f, 0)
+		for v := range sl.Values {
+			u, ok := v.(*ssa.UnOp)
+			if !ok || u.Op != token.MUL {
+				continue
+			}
+			fa, ok := u.X.(*ssa.FieldAddr)
+			if !ok {
+				continue
+			}
+			fk := core.FieldKey(fa)
+			if strings.HasPrefix(fk, "tree.") && strings.Contains(u.Type().String(), "sdcpb.Path") {
+				bad = fk
+			}
+		}
+		r.Check(bad == "", "PATH-FRESH", core.Site(f, "path elements are built per call"), w.Pos(f.Pos()), "the returned path is made of elements kept in "+bad)
 	}
 
 	// ---- MAP-ORDER
